@@ -9,5 +9,5 @@ one() { id=$1
   if ! git -C /repo apply --check "$(pwd)/seeded/$id/patch.diff" 2>/dev/null; then echo "$id DOES-NOT-APPLY" >> "$log"; return; fi
   tools/seeded.py detect "$id" 2>&1 | tail -1 | cut -c1-260 >> "$log"; }
 export -f one
-ls seeded | xargs -P 3 -I{} bash -c 'one {}'
+ls seeded | grep -E "${ONLY:-.}" | grep -vE "${SKIP:-^$}" | xargs -P 3 -I{} bash -c 'one {}'
 echo DONE >> "$log"
